@@ -96,7 +96,7 @@ STORES = ('bits', 'uint', 'bit', 'bytes', 'ref', 'cell', 'slice', 'maybe_ref', '
 CELL_DERIVES = ('begin_parse', 'to_slice', 'from_cell', 'to_builder', 'copy')
 SLICE_DERIVES = ('to_cell', 'copy', 'to_builder')
 BUILDER_DERIVES = ('to_slice', 'end_cell', 'to_cell')
-OBS = ('hash', 'get_hash', 'boc', 'order', 'repr_hash', 'repr', 'str', 'dict', 'tlb', 'vmwin', 'vmwin')
+OBS = ('hash', 'get_hash', 'boc', 'order', 'repr_hash', 'repr', 'str', 'dict', 'tlb', 'vmwin', 'vmwin', 'addr')
 TLB = ('MessageAny', 'Account', 'StateInit', 'Transaction', 'VmStack', 'ShardAccount', 'InternalMsgInfo', 'InMsg')
 STR_MAX_PATHS = 400     # str(cell) prints the TREE (one line per path): only called on cells with few paths
 
@@ -859,6 +859,23 @@ class _World:
             return None, None, None
         if what == 'vmwin':
             return self._obs_vmwin(c, k if isinstance(k, list) else [k, 0, 0, 0], name)
+        if what == 'addr':
+            # one account stored as a plain address and with anycast info, in the order k says, by equal but distinct Address
+            # objects: what each store writes depends on that object alone, not on what was stored before (in this program or here)
+            from pytoniq_core.boc.address import Address
+            acc = c.hash
+            out = []
+            for anyc in ((None, (3, 5), None) if k % 2 else ((7, 100), None, (7, 100))):
+                a = Address((k % 3 - 1, acc))
+                if anyc:
+                    a.set_anycast(*anyc)
+                ok, back = call(lambda: L.Builder().store_address(a).end_cell().begin_parse().load_address())
+                if ok:
+                    got = None if back.anycast is None else (back.anycast.depth, back.anycast.rewrite_pfx)
+                    if got != anyc or back.wc != a.wc or back.hash_part != acc:
+                        return Fail('store_address/depends-on-earlier-calls', f'{self._at()}: stored anycast {anyc}, the cell holds {got}'), None, None
+                    out.append(got)
+            return None, None, repr(out)
         raise ValueError(what)
 
     def _obs_vmwin(self, c, k, name):
@@ -1288,6 +1305,8 @@ def _g_obs(draw, m, ci=None, what=None):
         op['k'] = [draw(st.integers(0, 2)), draw(st.sampled_from([1, 2, 8, 8, 8, 16, 32, 256]))]
     elif what == 'tlb':
         op['k'] = draw(st.integers(0, len(TLB) - 1))
+    elif what == 'addr':
+        op['k'] = draw(st.integers(0, 5))
     elif what == 'vmwin':
         op['k'] = [draw(st.sampled_from([0, 0, 1, 7])), draw(st.integers(0, 1023)), draw(st.integers(0, 4)), draw(st.sampled_from([0, 1, 2, 3, 4, 4]))]
     return op
